@@ -5,7 +5,8 @@ package main
 //	stmtseq   {"name","dir","func","match":[...]} → def <name> : List String
 //	          normalised text, in source order, of every expression statement (call), ++/--
 //	          statement, assignment, return and if-condition of the function whose text contains
-//	          one of the substrings: the order of effects of a function.
+//	          one of the substrings: the order of effects of a function. With "loops": true also
+//	          `label L`, `range <expr>` and `for <cond>` rows (where labels and loops sit).
 //	callers   {"name","dir","callee"}             → def <name> : List String
 //	          names (sorted) of the functions of the package (non-test files) that call <callee>.
 //	mapwrites {"name","dir","field"}              → def <name> : List (String × String)
@@ -59,6 +60,34 @@ func kindStmtSeq(c *Ctx, it Item) (string, error) {
 			add("send", x)
 		case *ast.BranchStmt:
 			add("branch", x)
+		case *ast.LabeledStmt:
+			// only with "loops": true (keeps the older facts unchanged): where a label sits
+			if it["loops"] == true {
+				for _, pa := range pats {
+					if strings.Contains("label "+x.Label.Name, pa) {
+						rows = append(rows, "label "+x.Label.Name)
+						break
+					}
+				}
+			}
+		case *ast.RangeStmt:
+			if it["loops"] == true {
+				add("range", x.X)
+			}
+		case *ast.CommClause:
+			// a `default:` arm turns a blocking select into a non-blocking one
+			if it["loops"] == true && x.Comm == nil {
+				for _, pa := range pats {
+					if pa == "select-default" {
+						rows = append(rows, "select-default")
+						break
+					}
+				}
+			}
+		case *ast.ForStmt:
+			if it["loops"] == true && x.Cond != nil {
+				add("for", x.Cond)
+			}
 		}
 		return true
 	})
